@@ -7,6 +7,7 @@ package props
 import (
 	"bytes"
 	"encoding/json"
+	"errors"
 	"fmt"
 	"slices"
 	"sort"
@@ -94,6 +95,26 @@ func (m *trieModel) del(b string) bool {
 		}
 	}
 	return true
+}
+
+func (m *trieModel) longest() int {
+	n := 0
+	for x := range m.members {
+		n = max(n, len(x))
+	}
+	return n
+}
+
+// abbrevHist shortens the descriptions of operations with very long operands.
+func abbrevHist(hist []string) []string {
+	out := make([]string, len(hist))
+	for i, h := range hist {
+		if len(h) > 200 {
+			h = fmt.Sprintf("%s…(%d bytes)", h[:100], len(h))
+		}
+		out[i] = h
+	}
+	return out
 }
 
 func (m *trieModel) sorted() []string {
@@ -286,7 +307,12 @@ func observeTrie(tr *trie.Trie, m *trieModel, alphabet []byte, what string) erro
 	return nil
 }
 
-func rebuildTrie(tr *trie.Trie, direct bool) (*trie.Trie, error) {
+// errKnownC15: the listed open finding c15-json-depth (KNOWN_FINDINGS): encoding/json refuses
+// documents nested deeper than 10000 levels, the JSON form nests two levels per byte of a
+// member, so a trie with a member of 5000 bytes or more has no JSON form at all.
+var errKnownC15 = errors.New("known finding C15 json nesting depth")
+
+func rebuildTrie(tr *trie.Trie, direct bool, longest int) (*trie.Trie, error) {
 	var js []byte
 	var err error
 	if !direct {
@@ -305,7 +331,10 @@ func rebuildTrie(tr *trie.Trie, direct bool) (*trie.Trie, error) {
 		}
 	}
 	if err != nil {
-		return nil, fmt.Errorf("json.Marshal(trie) failed: %v", err)
+		if longest >= 5000 && strings.Contains(err.Error(), "exceeded max depth") {
+			return nil, fmt.Errorf("%w: the longest member has %d bytes and json.Marshal fails: %.120s", errKnownC15, longest, err.Error())
+		}
+		return nil, fmt.Errorf("json.Marshal(trie) failed: %.300s", err.Error())
 	}
 	fresh := trie.New()
 	if err := json.Unmarshal(js, fresh); err != nil {
@@ -416,9 +445,9 @@ func checkC15(c C15Case, o *Obs) error {
 			o.Class("node with 256 children")
 		case "json":
 			desc = "JSON-rebuild"
-			fresh, err := rebuildTrie(tr, step%2 == 0)
+			fresh, err := rebuildTrie(tr, step%2 == 0, m.longest())
 			if err != nil {
-				return fmt.Errorf("step %d: %v (history %v)", step, err, hist)
+				return fmt.Errorf("step %d: %w (history %v)", step, err, abbrevHist(hist))
 			}
 			tr = fresh
 			if deletedTrue {
@@ -432,14 +461,14 @@ func checkC15(c C15Case, o *Obs) error {
 		if m.size() > 0 {
 			wasNonEmpty = true
 		}
-		what := fmt.Sprintf("after step %d of history %v", step, hist)
+		what := fmt.Sprintf("after step %d of history %v", step, abbrevHist(hist))
 		if err := observeTrie(tr, m, alphabet, what); err != nil {
 			return err
 		}
 		// A trie rebuilt from the JSON form is indistinguishable.
-		fresh, err := rebuildTrie(tr, step%2 == 1)
+		fresh, err := rebuildTrie(tr, step%2 == 1, m.longest())
 		if err != nil {
-			return fmt.Errorf("%s: %v", what, err)
+			return fmt.Errorf("%s: %w", what, err)
 		}
 		if err := observeTrie(fresh, m, alphabet, what+", on the trie rebuilt from JSON"); err != nil {
 			return err
@@ -495,7 +524,9 @@ func exhaustiveC15(thorough bool, emit func(C15Case) bool) {
 		return
 	}
 	// keys longer than any fixed-size traversal stack, with branches at several depths
-	for _, n := range []int{15, 16, 17, 31, 32, 33, 34, 63, 64, 65, 66, 129, 257} {
+	// (255/256/257: a length that no longer fits a byte; 3400 and 4990: deep but still within
+	// encoding/json's nesting limit; 5000 and 6000: beyond it - the listed open finding)
+	for _, n := range []int{15, 16, 17, 31, 32, 33, 34, 63, 64, 65, 66, 129, 255, 256, 257, 1000, 3400, 4990, 5000, 6000} {
 		long := gen.B(bytes.Repeat([]byte("ab"), n/2+1)[:n])
 		h := []TrieOp{{Op: "add", S: long}, {Op: "add", S: append(bytes.Clone(long[:n-1]), 'z')}, {Op: "add", S: append(bytes.Clone(long[:n/2]), 'y', 'y')},
 			{Op: "add", S: append(bytes.Clone(long), 'q', 'r')}, {Op: "del", S: long[:n-1]}, {Op: "add", S: gen.B("b")}}
@@ -536,7 +567,13 @@ func keyC15(c C15Case) []byte {
 }
 
 func propC15() Prop[C15Case] {
-	return Prop[C15Case]{ID: "C15", Gen: genC15, Exhaustive: exhaustiveC15, Check: checkC15, Key: keyC15}
+	return Prop[C15Case]{ID: "C15", Gen: genC15, Exhaustive: exhaustiveC15, Check: checkC15, Key: keyC15,
+		Known: func(c C15Case, err error) string {
+			if errors.Is(err, errKnownC15) {
+				return "c15-json-depth"
+			}
+			return ""
+		}}
 }
 
 func TestC15(t *testing.T) { Run(t, propC15()) }
